@@ -32,12 +32,12 @@ Step(a) == /\ st.n < DEPTH
            /\ PrintT(<<"CASE", ToJson(hist')>>)
 
 DoSetFrame     == st.site \in {"frame", "nobody"} /\ Step([op |-> "SetFrame", s |-> st.buf])
-DoSetCell      == st.site = "cell"  /\ Step([op |-> "SetCell", s |-> st.buf])
+DoSetCell      == st.site \in {"cell", "spanned"} /\ Step([op |-> "SetCell", s |-> st.buf])     \* "spanned": the cell hidden behind a merged cell
 DoSetShapeText == st.site = "shape" /\ Step([op |-> "SetShapeText", s |-> st.buf])
 DoSetPara      == \E i \in 1..Len(st.body) : Step([op |-> "SetPara", i |-> i, s |-> st.buf])
 DoSetRun       == \E i \in 1..Len(st.body) : \E j \in 1..Len(Runs(st.body[i])) : Step([op |-> "SetRun", i |-> i, j |-> j, s |-> st.buf])
 Idle == st.buf = <<>>
-DoReassignFrame == REASSIGN /\ Idle /\ Step([op |-> CASE st.site \in {"frame", "nobody"} -> "SetFrame" [] st.site = "cell" -> "SetCell" [] OTHER -> "SetShapeText",
+DoReassignFrame == REASSIGN /\ Idle /\ Step([op |-> CASE st.site \in {"frame", "nobody"} -> "SetFrame" [] st.site \in {"cell", "spanned"} -> "SetCell" [] OTHER -> "SetShapeText",
                                                 s |-> FrameText(st.body), same |-> TRUE])
 DoReassignPara  == REASSIGN /\ Idle /\ \E i \in 1..Len(st.body) : Step([op |-> "SetPara", i |-> i, s |-> ParaText(st.body[i]), same |-> TRUE])
 \* builders deepen the histories when BUILD (they carry no property clause; the driver replays them all the same)
